@@ -256,6 +256,40 @@ def material_pairing():
     return "unknown"
 
 
+def probe_data_loop():
+    """BEHAVIOUR probe of the data-input loop of __update_internal_pointers (no monkeypatching): tiny problems whose
+    data block is every order of `mt1, m1, mt7, m2` (mt7 has no material; mt1 may stand before m1) and two orders with
+    a duplicated MT are linked in check mode; recorded: the cards (kind, number) and how many MalformedInputError
+    warnings the linking stage gave.  Whether the loop visits every input shows in these numbers: a loop that runs
+    over the shrinking list itself skips the input after a material that removed an earlier MT."""
+    import itertools
+    import shutil
+    import tempfile
+    import warnings
+
+    cards = {"mt1": ("mt1 lwtr.23t", (1, 1)), "m1": ("m1 1001.80c 2 8016.80c 1", (0, 1)), "mt7": ("mt7 grph.20t", (1, 7)),
+             "m2": ("m2 6000.80c 1", (0, 2)), "mt1b": ("mt1 h-zr.20t", (1, 1))}
+    orders = [list(p) for p in itertools.permutations(["mt1", "m1", "mt7", "m2"])]
+    orders += [["mt1", "mt1b", "m1", "mt7", "m2"], ["m1", "mt1", "mt1b", "m2", "mt7"], ["mt1", "m1", "mt1b", "mt7", "m2"]]
+    out = []
+    d = tempfile.mkdtemp(prefix="c13probe_")
+    try:
+        for k, order in enumerate(orders):
+            text = "probe\n1 1 -1.0 -1 imp:n=1\n2 2 -1.0 1 imp:n=0\n\n1 so 1\n\nmode n\n" + "\n".join(cards[c][0] for c in order) + "\n"
+            path = os.path.join(d, f"p{k}.imcnp")
+            with open(path, "w") as fh:
+                fh.write(text)
+            with warnings.catch_warnings(record=True) as w:
+                warnings.simplefilter("always")
+                problem = montepy.MCNP_Problem(path)
+                problem.parse_input(check_input=True)
+            n = sum(1 for x in w if str(x.message).startswith("MalformedInputError"))
+            out.append(([(2, 0)] + [cards[c][1] for c in order], n))
+    finally:
+        shutil.rmtree(d, ignore_errors=True)
+    return out
+
+
 def _callname(c):
     f = c.func
     if isinstance(f, ast.Name):
@@ -317,5 +351,9 @@ def generate(write):
     body += "\n/-- how Material.__init__ pairs the flat (nuclide, fraction) list of a material written without library\n    suffixes (from the AST of the ListNode branch) -/\n"
     body += "inductive Pairing\n  | batchedUnpack\n  | zipStrict\n  | zipTruncating\n  | unknown\n  deriving DecidableEq, Repr\n\n"
     body += f"def materialPairing : Pairing := .{material_pairing()}\n"
+    body += "\n/-- behaviour probe of the data-input loop of __update_internal_pointers: data blocks as (kind, number) with kind\n    0 = M, 1 = MT, 2 = other, and the number of MalformedInputError warnings the linking stage gave in check mode -/\n"
+    body += "def probeDataLoop : List (List (Nat × Nat) × Nat) := [\n" + ",\n".join(
+        "  ([" + ", ".join(f"({a}, {b})" for a, b in cs) + f"], {n})" for cs, n in probe_data_loop()
+    ) + "]\n"
     body += "\nend MontePyVerif.Gen.Errors\n"
     write("Errors.lean", body)
